@@ -118,6 +118,8 @@ type FV struct {
 	inlineDepth int
 	lockset  map[string]bool
 	escapes  int
+	curState *State // state of the statement being executed (for allocation bookkeeping)
+	loopIndex map[ast.Stmt]int // loops of the function under contract, numbered in source order (closures included)
 	uses     []string
 	writtenHeap map[string]bool
 }
@@ -480,7 +482,11 @@ func (fv *FV) merge(states []*State) *State {
 		for _, s := range live {
 			v, ok := s.heap[k]
 			if !ok {
-				v = fv.heapInit(k, Val{})
+				if k == "$alloc" {
+					v = Val{T: "alloc0", S: "Int"}
+				} else {
+					v = fv.heapInit(k, Val{})
+				}
 			}
 			vals = append(vals, v)
 		}
@@ -578,6 +584,7 @@ func (fv *FV) info() *types.Info { return fv.fn.pkg.TypesInfo }
 
 func (fv *FV) execStmt(st *State, s ast.Stmt, label string) *State {
 	st.parts = nil
+	fv.curState = st
 	switch s := s.(type) {
 	case *ast.BlockStmt:
 		return fv.execBlock(st, s.List)
@@ -1163,7 +1170,7 @@ func (fv *FV) collectMods(n ast.Node, ms *modSet, depth int) {
 // ---------- for / range ----------
 
 func (fv *FV) loopLets(st *State, ord int, pos token.Pos) {
-	if fv.contract == nil || !fv.fn.top {
+	if fv.contract == nil || ord <= 0 {
 		return
 	}
 	for _, l := range fv.contract.LoopLets {
@@ -1173,8 +1180,17 @@ func (fv *FV) loopLets(st *State, ord int, pos token.Pos) {
 	}
 }
 
+// ordOf: the source-order ordinal of a loop of the function under contract
+// (loops of inlined callees have none and take no invariants).
+func (fv *FV) ordOf(s ast.Stmt) int {
+	if n, ok := fv.loopIndex[s]; ok {
+		return n
+	}
+	return -1
+}
+
 func (fv *FV) loopClauses(ord int) (invs []Clause, dec *Clause) {
-	if fv.contract == nil || !fv.fn.top {
+	if fv.contract == nil || ord <= 0 {
 		return nil, nil
 	}
 	for i := range fv.contract.Loops {
@@ -1200,12 +1216,15 @@ func (fv *FV) havocMods(st *State, ms *modSet, what string) {
 		}
 	}
 	sort.Slice(objs, func(i, j int) bool { return objs[i].Pos() < objs[j].Pos() })
+	fv.advanceAlloc(st)
 	for _, o := range objs {
 		old := st.vars[o]
 		if old.Clos != nil {
 			continue
 		}
-		st.vars[o] = fv.freshVal(o.Name(), o.Type())
+		nv := fv.freshVal(o.Name(), o.Type())
+		fv.liveRef(st, nv)
+		st.vars[o] = nv
 	}
 	if ms.heapAll {
 		for _, k := range sortedKeys(st.heap) {
@@ -1260,6 +1279,7 @@ func (fv *FV) havocMods(st *State, ms *modSet, what string) {
 				if inv := fv.typeInv(nv, hv.Go, 1); inv != "true" {
 					fv.sess.fact(inv)
 				}
+				fv.liveRef(st, Val{T: nv, S: es, Go: hv.Go})
 			}
 			t = fmt.Sprintf("(store %s %s %s)", t, r, nv)
 		}
@@ -1268,6 +1288,10 @@ func (fv *FV) havocMods(st *State, ms *modSet, what string) {
 }
 
 func (fv *FV) havocHeapKey(st *State, k string) {
+	if k == "$alloc" {
+		fv.advanceAlloc(st)
+		return
+	}
 	cur, ok := st.heap[k]
 	if !ok {
 		cur = fv.heapInit(k, Val{})
@@ -1285,8 +1309,7 @@ func (fv *FV) specEnvAt(st *State, pos token.Pos) *SpecEnv {
 }
 
 func (fv *FV) execFor(st *State, s *ast.ForStmt, label string) *State {
-	fv.loopOrd++
-	ord := fv.loopOrd
+	ord := fv.ordOf(s)
 	top := fv.fn.top
 	if s.Init != nil {
 		st = fv.execStmt(st, s.Init, "")
@@ -1366,8 +1389,7 @@ func (fv *FV) execFor(st *State, s *ast.ForStmt, label string) *State {
 }
 
 func (fv *FV) execRange(st *State, s *ast.RangeStmt, label string) *State {
-	fv.loopOrd++
-	ord := fv.loopOrd
+	ord := fv.ordOf(s)
 	xt := fv.info().TypeOf(s.X)
 	under := types.Unalias(xt).Underlying()
 	if tp, ok := types.Unalias(xt).(*types.TypeParam); ok {
@@ -1440,7 +1462,7 @@ func (fv *FV) execRange(st *State, s *ast.RangeStmt, label string) *State {
 			ev = fv.freshVal("rune", types.Typ[types.Rune])
 		} else {
 			et := elemType(under)
-			ev = Val{T: fmt.Sprintf("(select (sq.arr %s) %s)", xv.T, i), S: fv.sess.sortOf(et), Go: et}
+			ev = fv.wellFormed(bst, Val{T: fmt.Sprintf("(select (sq.arr %s) %s)", xv.T, i), S: fv.sess.sortOf(et), Go: et})
 		}
 		if id, ok := s.Value.(*ast.Ident); ok && s.Tok == token.DEFINE {
 			if obj := fv.info().Defs[id]; obj != nil {
@@ -1579,7 +1601,7 @@ func (fv *FV) execRangeMap(st *State, s *ast.RangeStmt, label string, ord int) *
 	}
 	if s.Value != nil {
 		if id, ok := s.Value.(*ast.Ident); !ok || id.Name != "_" {
-			ev := Val{T: fmt.Sprintf("(select (mp.val %s) %s)", mv.T, k.T), S: fv.sess.sortOf(mt.Elem()), Go: mt.Elem()}
+			ev := fv.wellFormed(body, Val{T: fmt.Sprintf("(select (mp.val %s) %s)", mv.T, k.T), S: fv.sess.sortOf(mt.Elem()), Go: mt.Elem()})
 			if ok && s.Tok == token.DEFINE {
 				if obj := fv.info().Defs[id]; obj != nil {
 					body.vars[obj] = ev
